@@ -97,6 +97,7 @@ pub fn run(out: &mut Out, seed: u64, tier: &str) {
     }
     out.stat("exhaustive_symmetric_up_to_n", max_exh);
     let n_random = if tier == "thorough" { 4000 } else { 1200 };
+    let hint_mags: Vec<f64> = hints().magnitudes().into_iter().filter(|m| *m < 10.0).collect();
     for r in 0..n_random {
         let n = 2 + rng.below(if r % 4 == 0 { 19 } else { 5 });
         let mut m = vec![0.0; n * n];
@@ -114,9 +115,21 @@ pub fn run(out: &mut Out, seed: u64, tier: &str) {
                    m[i * n + j] = *rng.pick(&[e, -e, up, -up, dn, -dn, 1.0 + e, 1.0 - e, 2.0 + e, 3.0 - e, 1.5 - e, 4.0 + e, f64::MIN_POSITIVE, 1e-300, -1e-300, 1e-7, 9.999999e-9]); }
             3 => { if rng.chance(0.5) { m.pop(); } else { m.push(1.0); } }                      // wrong size
             4 => { m.truncate(n); }                                                               // wrong size
+            // an entry of a size the changed source lines mention (alone, and next to an order)
+            6 => { if !hint_mags.is_empty() { let (i, j) = { let i = rng.below(n - 1); (i, i + 1 + rng.below(n - 1 - i)) }; let e = hint_mags[rng.below(hint_mags.len())];
+                   m[i * n + j] = *rng.pick(&[e, -e, 1.0 + e, 1.0 - e, 2.0 - e, 1.5 + e, 3.0 + e, 4.0 - e, f64::from_bits(e.to_bits() + 1), f64::from_bits(e.to_bits() - 1)]); } }
             _ => {}
         }
         one(out, n, &m, &mut count, &mut with_bonds, &mut errors);
+    }
+    // matrices of a size the changed source lines mention
+    for &n in hints().ints.iter().filter(|k| **k >= 2 && **k <= 70).take(4) {
+        for nn in [n - 1, n, n + 1] {
+            let mut m = vec![0.0; nn * nn];
+            for i in 0..nn { for j in (i + 1)..nn { if rng.chance(3.0 / nn as f64) { let v = ALPHABET[1 + rng.below(5)]; m[i * nn + j] = v; m[j * nn + i] = v; } } }
+            for j in 1..nn { m[j] = 1.0; m[j * nn] = 1.0; }            // and one atom bonded to all others
+            one(out, nn, &m, &mut count, &mut with_bonds, &mut errors);
+        }
     }
     out.stat("matrices", count);
     out.stat("matrices_specifying_bonds", with_bonds);
